@@ -11,7 +11,11 @@ import (
 // c16Field builds one struct field of a kind chosen by the shape grammar.
 func c16Field(g *symir.Gen, name string) ast.StructField {
 	var t ast.Type
-	switch v.Choose(6) {
+	nk := 6
+	if v.Tier() == 0 {
+		nk = 4 // quick: scalar, constant, reference, constant reference
+	}
+	switch v.Choose(nk) {
 	case 0: // plain scalar, possibly with default and constraints
 		t = g.Scalar()
 	case 1: // the schema fixes the value: concrete scalar
@@ -48,13 +52,20 @@ func c16Schemas() (ast.Schemas, *symir.Gen) {
 	g.Defaults = true
 	g.Constraints = true
 	p := ast.NewSchema("p", ast.SchemaMeta{})
-	nf := 1
-	if v.Tier() > 0 {
-		nf = 1 + v.Choose(2)
-	}
+	nf := 1 + v.Choose(2)
 	var fields []ast.StructField
 	for i := 0; i < nf; i++ {
-		fields = append(fields, c16Field(g, []string{"f", "g"}[i]))
+		// field names may differ only in letter case (id / ID are two fields)
+		name := v.Str("fieldname", "f", "F", "g")
+		for _, prev := range fields {
+			v.Assume(prev.Name != name)
+		}
+		if i > 0 && v.Tier() == 0 {
+			// quick: the second field is a plain optional string (enough to exercise "covered exactly once")
+			fields = append(fields, ast.NewStructField(name, ast.String()))
+			continue
+		}
+		fields = append(fields, c16Field(g, name))
 	}
 	p.AddObject(ast.NewObject("p", "S", ast.NewStruct(fields...)))
 	// A: an alias — a reference to S, to K, to itself's package q.T, or a chain A -> K
